@@ -191,7 +191,73 @@ def run(tier):
         for f in e.get('fails', []):
             ck.violation('converter/' + f['key'], {'driver': 'drv_conv', 'variant': 'asan', 'case': 'op=tostrx id=x0', 'detail': f}, f['what'])
     ck.cov['converter_outcomes'] = oc
+    if not q:
+        fuzz_stage(ck, corpus, rng)
     return ck.finish(min_nontrivial=5000)
+
+
+def fuzz_stage(ck, corpus, rng, total_time=None, jobs=12):
+    """Thorough tier: coverage-guided libFuzzer target (clang ASan+UBSan) seeded with the valid corpus; artifacts are re-run one by one."""
+    import glob
+    import os
+    import re
+    import shutil
+    import subprocess
+    from vlib import build
+    total_time = total_time or int(os.environ.get('VERIF_FUZZ_SECONDS', '1200'))
+    exe = build.build('fuzz_load', 'fuzz', ['fuzz_load.cpp'])
+    work = os.path.join(build.BUILD, 'fuzz-work-%d' % ck.seed)
+    shutil.rmtree(work, ignore_errors=True)
+    os.makedirs(os.path.join(work, 'corpus'))
+    os.makedirs(os.path.join(work, 'artifacts'))
+    sel = {'json': 0, 'xml': 8, 'msgpack': 16, 'csv': 24}
+    nseed = 0
+    for arch, docs in corpus.items():
+        for t, doc in docs[:200]:
+            with open(os.path.join(work, 'corpus', 'seed%d' % nseed), 'wb') as f:
+                f.write(bytes([sel[arch] + rng.randrange(8), rng.randrange(32)]) + doc[:4000])
+            nseed += 1
+    env = core.sanitizer_env('asan', {'ASAN_OPTIONS': 'abort_on_error=0:detect_leaks=0:allocator_may_return_null=0:max_allocation_size_mb=2048:quarantine_size_mb=8:handle_abort=1'})
+    cmd = [exe, os.path.join(work, 'corpus'), '-jobs=%d' % jobs, '-workers=%d' % jobs, '-max_total_time=%d' % total_time, '-timeout=25', '-rss_limit_mb=4096', '-malloc_limit_mb=1024',
+           '-max_len=6000', '-print_final_stats=1', '-artifact_prefix=' + os.path.join(work, 'artifacts') + '/', '-seed=%d' % (ck.seed & 0x7fffffff)]
+    try:
+        subprocess.run(cmd, cwd=work, env=env, stdout=subprocess.DEVNULL, stderr=subprocess.DEVNULL, timeout=total_time + 600)
+    except subprocess.TimeoutExpired:
+        ck.inconc('libFuzzer wall-clock watchdog', {'cmd': ' '.join(cmd)})
+    execs = 0
+    cov_edges = 0
+    for lg in glob.glob(os.path.join(work, 'fuzz-*.log')):
+        txt = open(lg, errors='replace').read()
+        m = re.findall(r'stat::number_of_executed_units:\s*(\d+)', txt)
+        if m:
+            execs += int(m[-1])
+        m = re.findall(r' cov: (\d+) ', txt)
+        if m:
+            cov_edges = max(cov_edges, int(m[-1]))
+    arts = sorted(glob.glob(os.path.join(work, 'artifacts', '*')))
+    ck.cov['fuzz'] = {'seconds': total_time, 'jobs': jobs, 'executions': execs, 'coverage_edges': cov_edges, 'seed_inputs': nseed, 'artifacts': len(arts)}
+    if execs < 1000:
+        ck.harness_error('libFuzzer executed only %d inputs' % execs)
+    for a in arts[:200]:
+        data = open(a, 'rb').read()
+        for attempt in range(2):
+            try:
+                p = subprocess.run([exe, a, '-timeout=60', '-rss_limit_mb=4096', '-malloc_limit_mb=1024'], env=env, stdout=subprocess.PIPE, stderr=subprocess.PIPE, timeout=400)
+                err = p.stderr.decode('utf-8', 'replace')
+                rc = p.returncode
+            except subprocess.TimeoutExpired:
+                err, rc = 'wall-clock timeout', -1
+            if rc == 0:
+                break
+        if rc == 0:
+            ck.inconc('libFuzzer artifact not reproducible', {'artifact': os.path.basename(a), 'input': data[:2000].hex()})
+            continue
+        kind = os.path.basename(a).split('-')[0]
+        summ = core.summarize_sanitizer(err) if hasattr(core, 'summarize_sanitizer') else ''
+        key = 'fuzz/%s/%s' % (kind, (summ or 'rc=%s' % rc)[:90])
+        ck.violation(key, {'driver': 'fuzz_load', 'variant': 'fuzz', 'input': data[:200000].hex(), 'stderr': err[-3000:]}, 'libFuzzer %s artifact reproduces: %s' % (kind, (summ or '')[:200]))
+    ck.evaluations += execs
+    shutil.rmtree(work, ignore_errors=True)
 
 
 def replay(w):
